@@ -68,11 +68,12 @@ def _check_values_are_feasible(study: Study, values: Sequence[float]) -> str | N
         # TODO(Imamura): Construct error message taking into account all values and do not early
         # return `value` is assumed to be ignored on failure so we can set it to any value.
         try:
-            float(v)
-        except (ValueError, TypeError):
+            float_value = float(v)
+        except Exception:
+            # ValueError, TypeError, OverflowError (e.g., 10**400) or whatever ``__float__`` raises.
             return f"The value {repr(v)} could not be cast to float"
 
-        if math.isnan(v):
+        if math.isnan(float_value):
             return f"The value {v} is not acceptable"
 
     if len(study.directions) != len(values):
